@@ -117,7 +117,7 @@ class T(unittest.TestCase):
         return self.name_
 
     def id(self):
-        return self.name_
+        return 'id-of-' + self.name_         # the filter is defined on str(test), not on the id
 
     def __ch_deep_realize__(self, memo):
         return self
@@ -140,7 +140,7 @@ def _options(argv):
 IMPORTED = []
 
 
-def plumb(i0, g0, i1, g1, two, m00, m01, m10, m11, which):
+def plumb(i0, g0, i1, g1, two, m00, m01, m10, m11, which, ol=False):
     """End to end through the real call sites: -t via find_tests /
     tests_from_suite (names = str(test)), -m via find_suites (names = dotted
     module names computed by the real code), --layer via Filter.global_setup."""
@@ -149,9 +149,10 @@ def plumb(i0, g0, i1, g1, two, m00, m01, m10, m11, which):
     pats = [('!' if g0 else '') + pick(POOL[:3], i0)]
     if two:
         pats.append(('!' if g1 else '') + pick(POOL[:3], i1))
-    which = pick([0, 1, 2, 3], which)
+    which = pick([0, 1, 2, 3, 4], which)
+    ol = cb(ol)
     del USED[:]
-    names = [['t0', 't1'], ['pk.tests', 'pk.sub.tests'], ['w.A', 'w.B'], ['kp.pk.tests', 'kp.pk.sub.tests']][which]
+    names = [['t0', 't1'], ['pk.tests', 'pk.sub.tests'], ['w.A', 'w.B'], ['kp.pk.tests', 'kp.pk.sub.tests'], ['t0', 't1']][which]
     M.clear()
     for p in POOL[:3]:
         M[(p, names[0])] = False
@@ -163,10 +164,16 @@ def plumb(i0, g0, i1, g1, two, m00, m01, m10, m11, which):
         M[(pats[1].lstrip('!'), names[0])] = m10
         M[(pats[1].lstrip('!'), names[1])] = m11
     exp = [n for n in names if _oracle(pats, n)]
-    if which == 0:
+    if which in (0, 4):
         argv = []
-        for p in pats:
-            argv += ['-t', p]
+        if which == 4 and two:
+            # legacy positional filters: testrunner -t P0 MODULE_FILTER TEST_FILTER
+            argv = ['-t', pats[0], 'pk', pats[1]]
+        else:
+            for p in pats:
+                argv += ['-t', p]
+        if ol:
+            argv += ['--only-level', '1']
         o = _options(argv)
         o.keepbytecode = True
         suites = [unittest.TestSuite([T('t0'), unittest.TestSuite([T('t1')])])]
@@ -262,14 +269,14 @@ SPEC = {
          'fidelity': [_fv(), _fv(n=3, g0=True, i2=3, perm=4), _fv(n=1, g0=True, xg=True)]},
         {'name': 'plumb', 'fn': 'plumb',
          'params': [('i0', 'int'), ('g0', 'bool'), ('i1', 'int'), ('g1', 'bool'), ('two', 'bool'),
-                    ('m00', 'bool'), ('m01', 'bool'), ('m10', 'bool'), ('m11', 'bool'), ('which', 'int')],
-         'call': 'i0, g0, i1, g1, two, m00, m01, m10, m11, which',
-         'bounds': {'quick': '0 <= i0 < 3 and 0 <= i1 < 3 and 0 <= which < 4 and i0 == 0',
-                    'thorough': '0 <= i0 < 3 and 0 <= i1 < 3 and 0 <= which < 4'},
-         'slices': {'quick': ['which == %d' % w for w in range(4)],
-                    'thorough': ['which == %d and i0 == %d' % (w, i) for w in range(4) for i in range(3)]},
+                    ('m00', 'bool'), ('m01', 'bool'), ('m10', 'bool'), ('m11', 'bool'), ('which', 'int'), ('ol', 'bool')],
+         'call': 'i0, g0, i1, g1, two, m00, m01, m10, m11, which, ol',
+         'bounds': {'quick': '0 <= i0 < 3 and 0 <= i1 < 3 and 0 <= which < 5 and i0 == 0 and (not ol or which == 0 or which == 4)',
+                    'thorough': '0 <= i0 < 3 and 0 <= i1 < 3 and 0 <= which < 5 and (not ol or which == 0 or which == 4)'},
+         'slices': {'quick': ['which == %d' % w for w in range(5)],
+                    'thorough': ['which == %d and i0 == %d' % (w, i) for w in range(5) for i in range(3)]},
          'reach': 'plumb_reach',
-         'fidelity': [dict(i0=0, g0=False, i1=1, g1=True, two=True, m00=True, m01=True, m10=False, m11=True, which=w)
-                      for w in range(4)]},
+         'fidelity': [dict(i0=0, g0=False, i1=1, g1=True, two=True, m00=True, m01=True, m10=False, m11=True, which=w, ol=(w == 4))
+                      for w in range(5)]},
     ],
 }
